@@ -11,9 +11,11 @@ import "strconv"
 
 type vfParamFetcher struct{ params []Value }
 
-func (f *vfParamFetcher) Get(key VariableKey, _ string) (Value, error) { return f.params[int(key)], nil }
-func (f *vfParamFetcher) Set(_ VariableKey, _ string, _ Value) error    { return nil }
-func (f *vfParamFetcher) Cached(_ VariableKey, _ string) bool           { return true }
+func (f *vfParamFetcher) Get(key VariableKey, _ string) (Value, error) {
+	return f.params[int(key)], nil
+}
+func (f *vfParamFetcher) Set(_ VariableKey, _ string, _ Value) error { return nil }
+func (f *vfParamFetcher) Cached(_ VariableKey, _ string) bool        { return true }
 
 var vfFallbackNames = []string{"!", "!=", "%", "&", "&&", "*", "+", "-", "/", "<", "<=", "=", "==", ">", ">=", "add", "and", "between", "date", "datetime", "div", "eq", "ge", "gt", "in", "le", "lt", "mod", "mul", "ne", "not", "or", "overlap", "sub", "t_date", "t_time", "t_version", "td_date", "td_time", "to_date", "to_datetime", "to_version", "version", "xor", "|", "||"}
 
